@@ -17,6 +17,15 @@
 //      property text (oracle -> VIOLATION / KNOWN-FINDING classes) and (b) in Coq with
 //      impl_select / where_cmp of the model.
 //
+//  (C) the block / column planning layer: SegmentSearchRequest.JoinRequest driven directly on random
+//      plan pairs (oracle: blocks intersected / united, candidate columns of a kept block united; Coq:
+//      FilterPlan.join_req); layouts WITHOUT sentinel events (3 blocks, open segment with raw columns /
+//      rotated segment with dictionary columns) whose numeric columns cover different ranges per block
+//      and per column, queried with all-column numeric comparisons (free-text numbers, `*=N`, `*<N`),
+//      named comparisons and words under AND / OR / NOT in both operand orders; besides the ids the
+//      worker reports the merged plan the real micro-index phase builds (numeric leaves), which must
+//      equal FilterPlan.plan_of in Coq; the ids must equal the search executed under that plan.
+//
 // Known-defect classes are generated in their own streams (decimal literal vs integer values,
 // float equality within 1e-4, != / NOT on absent or differently typed values, integer
 // literals outside int64, numbers stored as text next to text values, `where` on integers
@@ -46,7 +55,11 @@ import (
 	"github.com/siglens/siglens/pkg/config"
 	eswriter "github.com/siglens/siglens/pkg/es/writer"
 	"github.com/siglens/siglens/pkg/segment/memory/limit"
+	segmetadata "github.com/siglens/siglens/pkg/segment/metadata"
 	"github.com/siglens/siglens/pkg/segment/query"
+	"github.com/siglens/siglens/pkg/segment/query/metadata"
+	"github.com/siglens/siglens/pkg/segment/query/summary"
+	"github.com/siglens/siglens/pkg/segment/structs"
 	sutils "github.com/siglens/siglens/pkg/segment/utils"
 	"github.com/siglens/siglens/pkg/segment/writer"
 	serverutils "github.com/siglens/siglens/pkg/server/utils"
@@ -65,16 +78,77 @@ type Query struct {
 	Text  string `json:"q"`
 	Start uint64 `json:"s"`
 	End   uint64 `json:"e"`
+	Plan  bool   `json:"p,omitempty"` // also observe the block / column plan the micro-index phase builds for this query
 }
 type Script struct {
 	Batches [][]string `json:"batches"`
 	Rotate  bool       `json:"rotate"`
+	Raw     bool       `json:"raw,omitempty"` // no dictionary encoding (writer.SetCardinalityLimit(1)): the record-by-record column search runs
 	Queries []Query    `json:"queries"`
 }
 type QObs struct {
 	Ids []int  `json:"ids"`
 	Err string `json:"err,omitempty"`
 	Dup bool   `json:"dup,omitempty"`
+	// the merged plan (AllBlocksToSearch / CmiPassedCnames of the one segment file): block -> candidate columns;
+	// HasPlan false = no request for the file
+	Plan    map[string][]string `json:"plan,omitempty"`
+	HasPlan bool                `json:"hasplan,omitempty"`
+	PlanErr string              `json:"planerr,omitempty"`
+}
+
+// the block / column plan exactly as the query path builds it: ParseRequest -> ConvertASTNodeToSearchNode ->
+// ExtractUnrotatedSSRFromSearchNode (open segment) / ExtractSSRFromSearchNode (rotated segment)
+func observePlan(q Query, o *QObs) {
+	defer func() {
+		if r := recover(); r != nil {
+			o.PlanErr = fmt.Sprintf("panic: %v", r)
+		}
+	}()
+	qid++
+	astNode, _, _, err := pipesearch.ParseRequest(q.Text, q.Start, q.End, qid, "Splunk QL", "c02")
+	if err != nil || astNode == nil {
+		o.PlanErr = fmt.Sprintf("parse: %v", err)
+		return
+	}
+	sNode := query.ConvertASTNodeToSearchNode(astNode, qid)
+	tr := &dtu.TimeRange{StartEpochMs: q.Start, EndEpochMs: q.End}
+	qs := summary.InitQuerySummary(summary.LOGS, qid)
+	var ssrs map[string]*structs.SegmentSearchRequest
+	writer.UnrotatedInfoLock.RLock()
+	var open []string
+	for k := range writer.AllUnrotatedSegmentInfo {
+		open = append(open, k)
+	}
+	writer.UnrotatedInfoLock.RUnlock()
+	files := map[string]map[string]*structs.BlockTracker{"c02": {}}
+	if len(open) > 0 {
+		for _, k := range open {
+			files["c02"][k] = structs.InitEntireFileBlockTracker()
+		}
+		ssrs = metadata.ExtractUnrotatedSSRFromSearchNode(sNode, tr, []string{"c02"}, files, qs, qid)
+	} else {
+		for k := range segmetadata.GetAllSegKeys() {
+			files["c02"][k] = structs.InitEntireFileBlockTracker()
+		}
+		ssrs = query.ExtractSSRFromSearchNode(sNode, files, tr, []string{"c02"}, qs, qid, false, "")
+	}
+	if len(files["c02"]) != 1 {
+		o.PlanErr = fmt.Sprintf("%d segment files", len(files["c02"]))
+		return
+	}
+	o.Plan = map[string][]string{}
+	for _, ssr := range ssrs {
+		o.HasPlan = true
+		for b := range ssr.AllBlocksToSearch {
+			cs := []string{}
+			for c := range ssr.CmiPassedCnames[b] {
+				cs = append(cs, c)
+			}
+			sort.Strings(cs)
+			o.Plan[strconv.Itoa(int(b))] = cs
+		}
+	}
 }
 
 func initNode(dir string) error {
@@ -172,6 +246,11 @@ func workerMain(dir, scriptPath, outPath string) {
 		fmt.Fprintln(os.Stderr, "init:", err)
 		os.Exit(4)
 	}
+	if sc.Raw {
+		// small blocks have few distinct values per column and would all be dictionary encoded (the dictionary search
+		// then answers the leaf); with the limit at 1 no column is, as for high-cardinality columns in production
+		writer.SetCardinalityLimit(1)
+	}
 	zero := time.Duration(0)
 	for i, batch := range sc.Batches {
 		var sb strings.Builder
@@ -193,6 +272,9 @@ func workerMain(dir, scriptPath, outPath string) {
 	obs := make([]QObs, len(sc.Queries))
 	for i, q := range sc.Queries {
 		obs[i] = runQuery(q)
+		if q.Plan {
+			observePlan(q, &obs[i])
+		}
 	}
 	ob, _ := json.Marshal(obs)
 	if err := os.WriteFile(outPath, ob, 0o644); err != nil {
@@ -443,7 +525,8 @@ func specCmp(op string, v Val, l Lit) bool {
 
 // ---------- expressions ----------
 type Expr struct {
-	Kind  string // cmp, term, and, or, not
+	Kind  string // cmp, term, any (all-column numeric comparison: free-text number N = `*=N`, `*<N`, ...), and, or, not
+	Bare  bool   // any with "=": written as the bare number
 	Col   string
 	Op    string
 	L     Lit
@@ -451,7 +534,11 @@ type Expr struct {
 	A, B  *Expr
 }
 
-var colNum = map[string]int{"ci": 1, "cf": 2, "cm": 3, "cs": 4, "cns": 5, "cb": 6, "cx": 7}
+var colNum = map[string]int{"ci": 1, "cf": 2, "cm": 3, "cs": 4, "cns": 5, "cb": 6, "cx": 7,
+	"pa": 8, "pb": 9, "pc": 10, "pf": 11, "pt": 12, "pu": 13} // 0 = the id field (plan datasets)
+var baseCols = []string{"ci", "cf", "cm", "cs", "cns", "cb", "cx"}
+var planCols = []string{"pa", "pb", "pc", "pf", "pt", "pu"}
+var allCols = append(append([]string{}, baseCols...), planCols...)
 
 type Event struct {
 	ID  int
@@ -471,6 +558,18 @@ func specEval(e *Expr, ev *Event) bool {
 	case "term":
 		for _, v := range ev.F {
 			if v.K == kStr && wordOccurs(e.Word, v.S) {
+				return true
+			}
+		}
+		return false
+	case "any":
+		// some field of the event (the id included; the timestamp is the event's time, not a field) holds a number
+		// that satisfies the comparison by value
+		if cmpRat(e.Op, big.NewRat(int64(ev.ID), 1), e.L.N.R) {
+			return true
+		}
+		for _, v := range ev.F {
+			if v.isNum() && cmpRat(e.Op, v.R, e.L.N.R) {
 				return true
 			}
 		}
@@ -504,6 +603,11 @@ func (e *Expr) spl() string {
 		return e.Col + e.Op + quoteIfNeeded(e.L.Pat)
 	case "term":
 		return quoteIfNeeded(e.Word)
+	case "any":
+		if e.Op == "=" && e.Bare {
+			return e.L.N.Text
+		}
+		return "*" + e.Op + e.L.N.Text
 	case "and":
 		return "(" + e.A.spl() + " AND " + e.B.spl() + ")"
 	case "or":
@@ -520,6 +624,8 @@ func (e *Expr) coq() string {
 		return fmt.Sprintf("EAtom (ACmp %d %s (%s) true)", colNum[e.Col], opCoq[e.Op], e.L.coq())
 	case "term":
 		return "EAtom (ATerm " + vhlib.CoqStr(lowerASCII(e.Word)) + " false)"
+	case "any":
+		return fmt.Sprintf("EAtom (AAny %s (%s))", opCoq[e.Op], e.L.coq())
 	case "and":
 		return "EAnd (" + e.A.coq() + ") (" + e.B.coq() + ")"
 	case "or":
@@ -531,6 +637,36 @@ func (e *Expr) coq() string {
 }
 
 func cmpE(col, op string, l Lit) *Expr { return &Expr{Kind: "cmp", Col: col, Op: op, L: l} }
+func anyE(op string, l Lit, bare bool) *Expr {
+	return &Expr{Kind: "any", Op: op, L: l, Bare: bare}
+}
+func hasAny(e *Expr) bool {
+	if e == nil {
+		return false
+	}
+	switch e.Kind {
+	case "any":
+		return true
+	case "and", "or":
+		return hasAny(e.A) || hasAny(e.B)
+	case "not":
+		return hasAny(e.A)
+	}
+	return false
+}
+func onlyNumericLeaves(e *Expr) bool {
+	switch e.Kind {
+	case "any":
+		return true
+	case "cmp":
+		return e.L.IsNum
+	case "and", "or":
+		return onlyNumericLeaves(e.A) && onlyNumericLeaves(e.B)
+	case "not":
+		return onlyNumericLeaves(e.A)
+	}
+	return false
+}
 func numL(text string) Lit             { return Lit{IsNum: true, N: mkNumLit(text)} }
 func strL(p string) Lit                { return Lit{Pat: p} }
 
@@ -905,6 +1041,168 @@ func directDrive(cfg vhlib.Config, sum *vhlib.Summary) {
 	}
 }
 
+// ---- SegmentSearchRequest.JoinRequest: the merge of the per-operand block / column plans of an AND / OR condition ----
+// Oracle (what the raw search needs from the merged plan, see FilterPlanProofs.plan_select_exact): the blocks are the
+// intersection (AND) / union (OR) of the operands' blocks, and the candidate columns of every kept block are the union of
+// the candidate columns the operands list for it -- an all-column comparison reads only those columns, so a column that
+// is dropped loses the matches of the operand that needs it.
+type planMap map[uint16][]string
+
+func coqPlan(p planMap) string {
+	var bs []int
+	for b := range p {
+		bs = append(bs, int(b))
+	}
+	sort.Ints(bs)
+	var items []string
+	for _, b := range bs {
+		cs := append([]string{}, p[uint16(b)]...)
+		sort.Strings(cs)
+		var cc []string
+		for _, c := range cs {
+			cc = append(cc, c[1:]+"%N") // column names are c<number>
+		}
+		items = append(items, fmt.Sprintf("(%d%%N, %s)", b, vhlib.CoqList(cc)))
+	}
+	return vhlib.CoqList(items)
+}
+
+func mkSSR(p planMap) *structs.SegmentSearchRequest {
+	ssr := &structs.SegmentSearchRequest{
+		AllBlocksToSearch:  map[uint16]struct{}{},
+		CmiPassedCnames:    map[uint16]map[string]bool{},
+		AllPossibleColumns: map[string]bool{},
+	}
+	for b, cs := range p {
+		ssr.AllBlocksToSearch[b] = struct{}{}
+		ssr.CmiPassedCnames[b] = map[string]bool{}
+		for _, c := range cs {
+			ssr.CmiPassedCnames[b][c] = true
+			ssr.AllPossibleColumns[c] = true
+		}
+	}
+	return ssr
+}
+
+func joinDrive(cfg vhlib.Config, sum *vhlib.Summary, r *vhlib.Rng) {
+	dir := filepath.Join(cfg.Out, "cases")
+	_ = os.MkdirAll(dir, 0o755)
+	n := 400
+	if cfg.Thorough() {
+		n = 4000
+	}
+	cols := []string{"c1", "c2", "c3", "c4", "c5"}
+	gen := func() planMap {
+		p := planMap{}
+		for b := 0; b < 5; b++ {
+			if r.Chance(55) {
+				cs := []string{}
+				for _, c := range cols {
+					if r.Chance(35) {
+						cs = append(cs, c)
+					}
+				}
+				p[uint16(b)] = cs
+			}
+		}
+		return p
+	}
+	var items []string
+	shard := 0
+	flush := func() {
+		if len(items) == 0 {
+			return
+		}
+		sum.WriteCaseFile(dir, fmt.Sprintf("join_%02d", shard), "From SigM Require Import Base Dte Filter FilterPlan FilterCheck.\n",
+			"Definition cases : list (bool * plan * plan * plan) := "+vhlib.CoqListNL(items)+".\n", "check_join cases", len(items))
+		shard++
+		items = nil
+	}
+	for i := 0; i < n; i++ {
+		p, q := gen(), gen()
+		isAnd := r.Bool()
+		op := sutils.Or
+		if isAnd {
+			op = sutils.And
+		}
+		a, b := mkSSR(p), mkSSR(q)
+		failed := func() (msg string) {
+			defer func() {
+				if x := recover(); x != nil {
+					msg = fmt.Sprint(x)
+				}
+			}()
+			a.JoinRequest(b, op)
+			return ""
+		}()
+		cs := map[string]interface{}{"op_is_and": isAnd, "receiver": p, "to_join": q}
+		if failed != "" {
+			sum.Fail("plan_join_panics", failed, cs)
+			continue
+		}
+		obs := planMap{}
+		for blk := range a.AllBlocksToSearch {
+			obs[blk] = []string{}
+			for c := range a.CmiPassedCnames[blk] {
+				obs[blk] = append(obs[blk], c)
+			}
+			sort.Strings(obs[blk])
+		}
+		cs["result"] = obs
+		sum.Eval(fmt.Sprintf("join/%v/%s/%s", isAnd, coqPlan(p), coqPlan(q)), len(p) > 0 && len(q) > 0)
+		sum.Count("direct/join_request")
+		// oracle
+		for blk := 0; blk < 5; blk++ {
+			bk := uint16(blk)
+			cp, inP := p[bk]
+			cq, inQ := q[bk]
+			want := inP || inQ
+			if isAnd {
+				want = inP && inQ
+			}
+			got, inR := obs[bk]
+			if want != inR {
+				sum.Fail("plan_join_wrong_blocks", fmt.Sprintf("JoinRequest(and=%v): block %d in receiver=%v in toJoin=%v, in the result=%v", isAnd, blk, inP, inQ, inR), cs)
+				continue
+			}
+			if _, hasNames := a.CmiPassedCnames[bk]; inR && !hasNames {
+				sum.Fail("plan_join_wrong_blocks", fmt.Sprintf("JoinRequest(and=%v): block %d kept without a CmiPassedCnames entry", isAnd, blk), cs)
+			}
+			if !inR {
+				continue
+			}
+			u := map[string]bool{}
+			for _, c := range cp {
+				u[c] = true
+			}
+			for _, c := range cq {
+				u[c] = true
+			}
+			g := map[string]bool{}
+			for _, c := range got {
+				g[c] = true
+			}
+			for c := range u {
+				if !g[c] {
+					sum.Fail("plan_join_loses_candidate_column", fmt.Sprintf("JoinRequest(and=%v): block %d: column %s is a candidate of an operand (receiver %v, toJoin %v) but not of the merged plan %v", isAnd, blk, c, cp, cq, got), cs)
+					break
+				}
+			}
+			for c := range g {
+				if !u[c] {
+					sum.Fail("plan_join_invents_candidate_column", fmt.Sprintf("JoinRequest(and=%v): block %d: column %s in the merged plan, in no operand", isAnd, blk, c), cs)
+					break
+				}
+			}
+		}
+		items = append(items, fmt.Sprintf("(%s, %s, %s, %s)", vhlib.CoqBool(isAnd), coqPlan(p), coqPlan(q), coqPlan(obs)))
+		if len(items) >= 1000 {
+			flush()
+		}
+	}
+	flush()
+}
+
 func ratF(r *big.Rat) float64 { f, _ := r.Float64(); return f }
 func kindName(k int) string {
 	return []string{"int", "uint", "float", "str", "bool", "absent"}[k]
@@ -938,6 +1236,7 @@ type QCase struct {
 	Tag    string
 	Text   string
 	SearchStream string // where-only queries: the stream of the same comparison as a search clause
+	PlanObs      bool   // the worker also reports the block / column plan of the query (numeric leaves only: deterministic)
 }
 
 func (q *QCase) render() string {
@@ -956,6 +1255,8 @@ type Dataset struct {
 	Blocks [][]int // event indices per flushed batch
 	Rotate bool
 	Sparse bool
+	Raw    bool // columns are not dictionary encoded
+	Plan   bool // block/column planning dataset: no sentinels, type-pure columns, distinct value ranges per block
 }
 
 func mkDataset(r *vhlib.Rng, sparse bool, twoBlocks bool) *Dataset {
@@ -1077,18 +1378,38 @@ func mkDataset(r *vhlib.Rng, sparse bool, twoBlocks bool) *Dataset {
 	return ds
 }
 
+func (ds *Dataset) coqEvent(ev *Event) string {
+	var fs []string
+	if ds.Plan { // the id is a numeric field an all-column comparison sees
+		fs = append(fs, fmt.Sprintf("(0%%N, SInt %d)", ev.ID))
+	}
+	for _, col := range allCols {
+		if v, ok := ev.St[col]; ok {
+			fs = append(fs, fmt.Sprintf("(%d%%N, %s)", colNum[col], v.coq()))
+		}
+	}
+	return fmt.Sprintf("mkEv %d%%N %d %s", ev.ID, ev.TS, vhlib.CoqList(fs))
+}
+
 func (ds *Dataset) coqEvents() string {
 	var items []string
 	for _, ev := range ds.Events {
-		var fs []string
-		for _, col := range []string{"ci", "cf", "cm", "cs", "cns", "cb", "cx"} {
-			if v, ok := ev.St[col]; ok {
-				fs = append(fs, fmt.Sprintf("(%d%%N, %s)", colNum[col], v.coq()))
-			}
-		}
-		items = append(items, fmt.Sprintf("mkEv %d%%N %d %s", ev.ID, ev.TS, vhlib.CoqList(fs)))
+		items = append(items, ds.coqEvent(ev))
 	}
 	return vhlib.CoqListNL(items)
+}
+
+// the block layout: (block number, records in order)
+func (ds *Dataset) coqBlocks() string {
+	var blks []string
+	for b, idx := range ds.Blocks {
+		var items []string
+		for _, k := range idx {
+			items = append(items, ds.coqEvent(ds.Events[k]))
+		}
+		blks = append(blks, fmt.Sprintf("(%d%%N, %s)", b, vhlib.CoqListNL(items)))
+	}
+	return vhlib.CoqListNL(blks)
 }
 
 func (ds *Dataset) colVals(col string) []Val {
@@ -1236,6 +1557,48 @@ func termClass(ds *Dataset, w string, neg bool) string {
 	return "main"
 }
 
+// all-column numeric comparison (`N`, `*=N`, `*<N`, ...): which stream.  The engine evaluates it as "some candidate
+// column of the record satisfies it"; under NOT (and for !=) deMorgansLaw only flips the operator, which is again
+// "some column ...", not the complement (known class negated_allcolumn_number).  A literal that is not a plain
+// int64 does not convert for the integer-typed range entries (every event has the integer id column).
+func anyClass(ds *Dataset, op string, l Lit, negated bool) string {
+	if negated || op == "!=" {
+		return "negated_allcolumn_number"
+	}
+	n := l.N
+	hasFloat := false
+	for _, ev := range ds.Events {
+		for _, v := range ev.F {
+			if v.K == kFloat {
+				hasFloat = true
+			}
+		}
+	}
+	if n.IsInt && hasFloat && new(big.Rat).SetFloat64(ratF(n.R)).Cmp(n.R) != 0 {
+		return "skip"
+	}
+	if n.R.Cmp(i64min) < 0 || n.R.Cmp(i64max) > 0 {
+		return "integer_literal_outside_int64"
+	}
+	if n.Dot || !n.IsInt {
+		return "int_column_vs_decimal_literal"
+	}
+	if op == "=" {
+		tol := big.NewRat(1, 10000)
+		for _, ev := range ds.Events {
+			for _, v := range ev.F {
+				if v.K == kFloat {
+					d := absRat(new(big.Rat).Sub(v.R, n.R))
+					if d.Sign() != 0 && d.Cmp(tol) < 0 {
+						return "float_equality_tolerance"
+					}
+				}
+			}
+		}
+	}
+	return "main"
+}
+
 func modelable(stream, col string) bool {
 	switch stream {
 	case "integer_literal_outside_int64", "phrase_inside_value_pruned", "negated_term_not_in_block", "where_int_above_2p53", "skip":
@@ -1259,6 +1622,8 @@ func exprModelable(ds *Dataset, e *Expr, neg bool) bool {
 		return modelable(classify(ds, e.Col, e.Op, e.L, neg), e.Col)
 	case "term":
 		return modelable(termClass(ds, e.Word, neg), "")
+	case "any":
+		return anyClass(ds, e.Op, e.L, neg) == "main"
 	case "not":
 		return exprModelable(ds, e.A, !neg)
 	default:
@@ -1272,14 +1637,18 @@ func exprClass(ds *Dataset, e *Expr, neg bool) string {
 		return classify(ds, e.Col, e.Op, e.L, neg)
 	case "term":
 		return termClass(ds, e.Word, neg)
+	case "any":
+		return anyClass(ds, e.Op, e.L, neg)
 	case "not":
 		return exprClass(ds, e.A, !neg)
 	default:
 		a, b := exprClass(ds, e.A, neg), exprClass(ds, e.B, neg)
-		if a != "main" {
-			return a
+		// a repaired class (kept as a regression stream) must not hide a still-known class of the other operand
+		repaired := a == "negated_term_not_in_block" || a == "where_noninteger_equals_zero"
+		if a == "main" || (repaired && b != "main") {
+			return b
 		}
-		return b
+		return a
 	}
 }
 
@@ -1426,6 +1795,197 @@ func genQueries(r *vhlib.Rng, ds *Dataset, thorough bool) []*QCase {
 	return qs
 }
 
+// ---------- block / column planning datasets ----------
+// No sentinel events: the numeric columns have different value ranges in different blocks and different columns of
+// one block cover different ranges, so the micro-index check of one leaf keeps some blocks and, for an all-column
+// comparison, some columns only; AND / OR then have to merge those per-leaf plans (JoinRequest).
+var planWords = []string{"alpha", "beta", "gamma", "delta", "omega", "kappa beta", "Alpha two", "zeta"}
+
+func mkPlanDataset(r *vhlib.Rng, rotate bool, nBlocks int) *Dataset {
+	ds := &Dataset{Rotate: rotate, Plan: true}
+	id := 0
+	per := 8
+	pcPool := []int{404, 500, 7, 100, 207, 300, 1000, -3, 404, 212}
+	for b := 0; b < nBlocks; b++ {
+		var idx []int
+		for i := 0; i < per; i++ {
+			f := map[string]Val{}
+			put := func(col string, v Val) {
+				// pa and pt are never absent (NOT / != on them stay in the main stream); the first two records of a
+				// block have every column
+				if i > 1 && col != "pa" && col != "pt" && r.Chance(15) {
+					return
+				}
+				f[col] = v
+			}
+			put("pa", vInt(strconv.Itoa(100*(b+1)+i)))                 // block b: 100(b+1) .. 100(b+1)+7
+			put("pb", vInt(strconv.Itoa(100*((b+1)%nBlocks+1)+2*i)))    // the range pa has in the NEXT block
+			put("pc", vInt(strconv.Itoa(pcPool[(i+3*b+r.Intn(2))%len(pcPool)])))
+			if (i+b)%3 == 0 {
+				put("pf", vFloat(strconv.Itoa(400+100*b+i)+".0")) // an integral float
+			} else {
+				put("pf", vFloat(strconv.Itoa(50*(b+1)+i)+".5"))
+			}
+			put("pt", vStr(planWords[(i+b)%len(planWords)]))
+			put("pu", vStr(planWords[(2*i+b+3)%len(planWords)]))
+			ev := &Event{ID: id, TS: T0 + uint64(id)*1000, F: f, St: f}
+			id++
+			idx = append(idx, len(ds.Events))
+			ds.Events = append(ds.Events, ev)
+		}
+		ds.Blocks = append(ds.Blocks, idx)
+	}
+	return ds
+}
+
+func genPlanQueries(r *vhlib.Rng, ds *Dataset, thorough bool) []*QCase {
+	var qs []*QCase
+	lo, hi := T0-1000, T0+10000000
+	add := func(q *QCase) {
+		if q.Stream == "skip" {
+			return
+		}
+		if q.Start == 0 {
+			q.Start, q.End = lo, hi
+		}
+		if q.E != nil && !exprModelable(ds, q.E, false) {
+			q.Model = false
+		}
+		q.PlanObs = q.Model && q.E != nil && q.W == nil && onlyNumericLeaves(q.E)
+		q.Text = q.render()
+		qs = append(qs, q)
+	}
+	// literal pool: every integer value of the dataset (also the integral floats), their neighbours, values outside
+	seen := map[string]bool{}
+	var lits []string
+	addLit := func(z int64) {
+		t := strconv.FormatInt(z, 10)
+		if !seen[t] {
+			seen[t] = true
+			lits = append(lits, t)
+		}
+	}
+	var present []string
+	for _, ev := range ds.Events {
+		for _, c := range planCols {
+			if v, ok := ev.F[c]; ok && v.isNum() && v.R.IsInt() {
+				z := v.R.Num().Int64()
+				if !seen[strconv.FormatInt(z, 10)] {
+					present = append(present, strconv.FormatInt(z, 10))
+				}
+				addLit(z)
+			}
+		}
+	}
+	for _, t := range append([]string{}, lits...) {
+		z, _ := strconv.ParseInt(t, 10, 64)
+		if r.Chance(30) {
+			addLit(z + 1)
+		}
+		if r.Chance(20) {
+			addLit(z - 1)
+		}
+	}
+	for _, z := range []int64{0, 1, 5, -5, 150, 250, 350, 999, 5000, int64(len(ds.Events)) - 1} {
+		addLit(z)
+	}
+	ineq := []string{"<", "<=", ">", ">="}
+	// 1. single all-column comparisons: the free-text number, `*=N`, and the inequalities
+	for _, t := range lits {
+		l := numL(t)
+		add(&QCase{Stream: anyClass(ds, "=", l, false), E: anyE("=", l, true), Model: true, Tag: "any/bare"})
+		if thorough || r.Chance(40) {
+			add(&QCase{Stream: anyClass(ds, "=", l, false), E: anyE("=", l, false), Model: true, Tag: "any/eq"})
+		}
+		if thorough || r.Chance(50) {
+			op := vhlib.Pick(r, ineq)
+			add(&QCase{Stream: anyClass(ds, op, l, false), E: anyE(op, l, false), Model: true, Tag: "any/ineq"})
+		}
+	}
+	// 2./3. compound groups; A, B, A AND B, A OR B, NOT A, B OR A are all run (set identities on the observed results)
+	anyEq := func() *Expr { return anyE("=", numL(vhlib.Pick(r, present)), r.Chance(70)) }
+	anyAtom := func() *Expr {
+		if r.Chance(70) {
+			if r.Chance(25) {
+				return anyE("=", numL(vhlib.Pick(r, lits)), r.Chance(70))
+			}
+			return anyEq()
+		}
+		return anyE(vhlib.Pick(r, ineq), numL(vhlib.Pick(r, lits)), false)
+	}
+	atom := func() *Expr {
+		switch r.Intn(8) {
+		case 0, 1, 2:
+			return anyAtom()
+		case 3:
+			return cmpE(vhlib.Pick(r, []string{"pa", "pb", "pc"}), vhlib.Pick(r, []string{"=", "<", "<=", ">", ">="}), numL(vhlib.Pick(r, lits)))
+		case 4:
+			return cmpE("pf", vhlib.Pick(r, ineq), numL(vhlib.Pick(r, lits)))
+		case 5: // never absent: NOT of it is the complement
+			return cmpE("pa", vhlib.Pick(r, ops), numL(vhlib.Pick(r, lits)))
+		case 6: // named text comparison: bloom of one column
+			return cmpE(vhlib.Pick(r, []string{"pt", "pt", "pu"}), vhlib.Pick(r, []string{"=", "=", "!="}), strL(vhlib.Pick(r, []string{"alpha", "beta", "gamma", "omega", "kappa beta", "Alpha two", "al*", "*ta", "zeta", "nomatch"})))
+		default:
+			return &Expr{Kind: "term", Word: vhlib.Pick(r, []string{"alpha", "beta", "gamma", "delta", "omega", "two", "kappa", "zeta", "nomatch"})}
+		}
+	}
+	var genE func(d int, leaf func() *Expr) *Expr
+	genE = func(d int, leaf func() *Expr) *Expr {
+		if d == 0 || r.Chance(40) {
+			return leaf()
+		}
+		switch r.Intn(5) {
+		case 0, 1:
+			return &Expr{Kind: "and", A: genE(d-1, leaf), B: genE(d-1, leaf)}
+		case 2, 3:
+			return &Expr{Kind: "or", A: genE(d-1, leaf), B: genE(d-1, leaf)}
+		default:
+			return &Expr{Kind: "not", A: genE(d-1, leaf)}
+		}
+	}
+	gi := 0
+	group := func(a, b *Expr) {
+		for k, e := range []*Expr{a, b, {Kind: "and", A: a, B: b}, {Kind: "or", A: a, B: b}, {Kind: "not", A: a}, {Kind: "or", A: b, B: a}} {
+			add(&QCase{Stream: exprClass(ds, e, false), E: e, Model: true, Tag: fmt.Sprintf("compound/%d/%d", gi, k)})
+		}
+		gi++
+	}
+	nPairs, nTrees := 36, 36
+	if thorough {
+		nPairs, nTrees = 150, 150
+	}
+	for i := 0; i < nPairs; i++ { // two all-column equalities: same block / other block, same column / other column
+		group(anyEq(), anyEq())
+	}
+	for i := 0; i < nPairs/3; i++ {
+		group(anyAtom(), anyAtom())
+	}
+	for i := 0; i < nTrees; i++ { // trees over all-column comparisons, named comparisons and words
+		group(genE(2, atom), genE(2, atom))
+	}
+	// 4. all-column comparisons under a time range that covers one block, or cuts through blocks
+	nb := len(ds.Blocks)
+	for i := 0; i < 12 && nb > 1; i++ {
+		b := r.Intn(nb)
+		first, last := ds.Events[ds.Blocks[b][0]].TS, ds.Events[ds.Blocks[b][len(ds.Blocks[b])-1]].TS
+		e := &Expr{Kind: "or", A: anyEq(), B: anyEq()}
+		add(&QCase{Stream: exprClass(ds, e, false), E: e, Start: first, End: last, Model: true, Tag: "any/time_block"})
+		add(&QCase{Stream: exprClass(ds, e, false), E: e, Start: first + 2000, End: last + 3000, Model: true, Tag: "any/time_cut"})
+	}
+	// 5. known streams: decimal literals, != and NOT on an all-column comparison
+	for _, t := range []string{"404.0", "100.5", "2.5", "207.0"} {
+		l := numL(t)
+		add(&QCase{Stream: anyClass(ds, "=", l, false), E: anyE("=", l, true), Tag: "any/decimal"})
+		add(&QCase{Stream: anyClass(ds, "<", l, false), E: anyE("<", l, false), Tag: "any/decimal"})
+	}
+	for i := 0; i < 6; i++ {
+		a := anyEq()
+		add(&QCase{Stream: "negated_allcolumn_number", E: &Expr{Kind: "not", A: a}, Tag: "any/not"})
+		add(&QCase{Stream: "negated_allcolumn_number", E: anyE("!=", a.L, false), Tag: "any/ne"})
+	}
+	return qs
+}
+
 var allFails []string
 
 type scenario struct {
@@ -1517,7 +2077,8 @@ func evalScenario(sc *scenario, sum *vhlib.Summary, dir string, imports string) 
 	}
 	results := map[string][]int{} // tag -> ids (for the set identities)
 	streams := map[string]string{}
-	var selItems, whereItems []string
+	texts := map[string]string{}
+	var selItems, whereItems, planItems []string
 	for i, q := range sc.qs {
 		o := sc.obs[i]
 		sum.Count("stream/" + q.Stream)
@@ -1556,6 +2117,7 @@ func evalScenario(sc *scenario, sum *vhlib.Summary, dir string, imports string) 
 		sum.Eval("q/"+sc.name+"/"+q.Text+fmt.Sprint(q.Start, q.End), len(want) > 0 && len(want) < len(ds.Events))
 		results[q.Tag] = o.Ids
 		streams[q.Tag] = q.Stream
+		texts[q.Tag] = q.Text
 		if o.Dup {
 			sum.Fail("filter_false_positive", q.Text+": an event was returned twice", describe(q, want, o.Ids))
 		}
@@ -1574,9 +2136,44 @@ func evalScenario(sc *scenario, sum *vhlib.Summary, dir string, imports string) 
 				if q.W != nil && q.E == nil {
 					class = "where_stage_not_by_value"
 				}
+				if hasAny(q.E) { // an all-column numeric comparison is involved (candidate columns of the block plan)
+					if len(extra) > 0 {
+						class = "allcolumn_number_false_positive"
+					} else {
+						class = "allcolumn_number_false_negative"
+					}
+				}
 			}
 			sum.Fail(class, fmt.Sprintf("[%s] %s  range [%d,%d]: missing %v unexpected %v", sc.name, q.Text, q.Start, q.End, miss, extra), describe(q, want, o.Ids))
 			allFails = append(allFails, fmt.Sprintf("%s\t%s\t%s\tmissing %v unexpected %v", class, sc.name, q.Text, miss, extra))
+		}
+		// the observed block / column plan against plan_of of the model
+		if q.PlanObs && q.Model {
+			if o.PlanErr != "" {
+				sum.HarnessError(fmt.Sprintf("plan observation failed for %q: %s", q.Text, o.PlanErr))
+			} else {
+				sum.Count("plan/observed")
+				pl := "None"
+				if o.HasPlan {
+					pm := planMap{}
+					for bs, cs := range o.Plan {
+						b, _ := strconv.Atoi(bs)
+						var cc []string
+						for _, c := range cs {
+							if c == "id" {
+								cc = append(cc, "c0")
+							} else if n, ok := colNum[c]; ok {
+								cc = append(cc, "c"+strconv.Itoa(n))
+							} else {
+								sum.HarnessError("plan observation: unknown column " + c)
+							}
+						}
+						pm[uint16(b)] = cc
+					}
+					pl = "Some " + coqPlan(pm)
+				}
+				planItems = append(planItems, fmt.Sprintf("(%s, mkTr %d %d, %s)", q.E.coq(), q.Start, q.End, pl))
+			}
 		}
 		// model comparison
 		if q.Model {
@@ -1632,14 +2229,24 @@ func evalScenario(sc *scenario, sum *vhlib.Summary, dir string, imports string) 
 		b, okb := results[fmt.Sprintf("compound/%d/1", i)]
 		and, ok2 := results[fmt.Sprintf("compound/%d/2", i)]
 		or, ok3 := results[fmt.Sprintf("compound/%d/3", i)]
+		ro, ok5 := results[fmt.Sprintf("compound/%d/5", i)] // B OR A
 		if !okb {
 			continue
 		}
 		idClass := func(def string) string { // a known-class operand: the identity is reported under that class
+			repaired := ""
 			for k := 0; k < 4; k++ {
 				if st := streams[fmt.Sprintf("compound/%d/%d", i, k)]; st != "" && st != "main" {
+					if st == "negated_term_not_in_block" || st == "where_noninteger_equals_zero" {
+						// a repaired class (regression stream) does not hide a still-known class of another member
+						repaired = st
+						continue
+					}
 					return st
 				}
+			}
+			if repaired != "" {
+				return repaired
 			}
 			return def
 		}
@@ -1661,11 +2268,41 @@ func evalScenario(sc *scenario, sum *vhlib.Summary, dir string, imports string) 
 			sum.Fail(idClass("and_not_intersection"), fmt.Sprintf("[%s] compound %d: A AND B returned %v, A∩B = %v", sc.name, i, and, inter), map[string]interface{}{"scenario": sc.name, "A": a, "B": b, "and": and})
 		}
 		if ok3 && !eqInts(or, union) {
-			sum.Fail(idClass("or_not_union"), fmt.Sprintf("[%s] compound %d: A OR B returned %v, A∪B = %v", sc.name, i, or, union), map[string]interface{}{"scenario": sc.name, "A": a, "B": b, "or": or})
+			sum.Fail(idClass("or_not_union"), fmt.Sprintf("[%s] compound %d: A OR B returned %v, A∪B = %v", sc.name, i, or, union), map[string]interface{}{"scenario": sc.name, "A": a, "B": b, "or": or,
+				"queries": []string{texts[fmt.Sprintf("compound/%d/0", i)], texts[fmt.Sprintf("compound/%d/1", i)], texts[fmt.Sprintf("compound/%d/3", i)]}})
+		}
+		if ok5 && !eqInts(ro, union) {
+			sum.Fail(idClass("or_not_union"), fmt.Sprintf("[%s] compound %d: B OR A returned %v, A∪B = %v", sc.name, i, ro, union), map[string]interface{}{"scenario": sc.name, "A": a, "B": b, "or": ro,
+				"queries": []string{texts[fmt.Sprintf("compound/%d/0", i)], texts[fmt.Sprintf("compound/%d/1", i)], texts[fmt.Sprintf("compound/%d/5", i)]}})
 		}
 	}
 	// Coq case files
 	defs := "Definition all_e : expr := EOr (EAtom (ATerm [] false)) (EAtom (ATerm [] true)).\nDefinition evs : list event := " + ds.coqEvents() + ".\n"
+	if ds.Plan {
+		// the block layout goes to Coq: the search is executed under the merged block / column plan (FilterPlan.v)
+		pdefs := "Definition all_e : expr := EOr (EAtom (ATerm [] false)) (EAtom (ATerm [] true)).\nDefinition blks : list blockrec := " + ds.coqBlocks() + ".\n"
+		for k := 0; k*160 < len(selItems); k++ {
+			hi := (k + 1) * 160
+			if hi > len(selItems) {
+				hi = len(selItems)
+			}
+			part := selItems[k*160 : hi]
+			sum.WriteCaseFile(dir, fmt.Sprintf("plansel_%s_%02d", sc.name, k), strings.Replace(imports, "FilterCheck.", "FilterPlan FilterCheck.", 1),
+				pdefs+"Definition qs : list (expr * trange * list N) := "+vhlib.CoqListNL(part)+".\n",
+				"check_plan_select2 blks qs 0 ++ map (fun i => (2000 + i)%nat) (check_guarded (all_events blks) qs)", len(part))
+		}
+		for k := 0; k*300 < len(planItems); k++ {
+			hi := (k + 1) * 300
+			if hi > len(planItems) {
+				hi = len(planItems)
+			}
+			part := planItems[k*300 : hi]
+			sum.WriteCaseFile(dir, fmt.Sprintf("planof_%s_%02d", sc.name, k), strings.Replace(imports, "FilterCheck.", "FilterPlan FilterCheck.", 1),
+				pdefs+"Definition qs : list (expr * trange * option plan) := "+vhlib.CoqListNL(part)+".\n",
+				"check_plan_of blks qs", len(part))
+		}
+		return
+	}
 	for k := 0; k*400 < len(selItems); k++ {
 		hi := (k + 1) * 400
 		if hi > len(selItems) {
@@ -1699,7 +2336,7 @@ func docOf(ev *Event) map[string]interface{} {
 func docText(ev *Event) string {
 	var sb strings.Builder
 	fmt.Fprintf(&sb, "{\"id\":%d,\"timestamp\":%d", ev.ID, ev.TS)
-	for _, c := range []string{"ci", "cf", "cm", "cs", "cns", "cb", "cx"} {
+	for _, c := range allCols {
 		if v, ok := ev.F[c]; ok {
 			fmt.Fprintf(&sb, ",%q:%s", c, v.JSON)
 		}
@@ -1742,8 +2379,30 @@ func main() {
 	for _, l := range layouts {
 		r := rng.Fork()
 		ds := mkDataset(r, l.sparse, l.twoBl)
+		// small blocks would be dictionary encoded throughout; the two-block sparse layout and every second random layout
+		// are written without dictionaries, so that the record-by-record column search is exercised end to end as well
+		ds.Raw = l.name == "sparse2" || l.name == "rnd1" || l.name == "rnd3" || l.name == "rnd5"
 		scs = append(scs, &scenario{name: l.name, ds: ds, qs: genQueries(r, ds, cfg.Thorough())})
 	}
+	// block / column planning layouts: 3 blocks in an open segment, 3 blocks rotated (the two micro-index code paths)
+	// planU: raw columns (record-by-record search of the candidate columns), planR: dictionary-encoded columns
+	type planLayout struct {
+		name   string
+		rotate bool
+		nb     int
+		raw    bool
+	}
+	planLayouts := []planLayout{{"planU", false, 3, true}, {"planR", true, 3, false}}
+	if cfg.Thorough() {
+		planLayouts = append(planLayouts, planLayout{"planU4", false, 4, false}, planLayout{"planR2", true, 2, true})
+	}
+	for _, l := range planLayouts {
+		r := rng.Fork()
+		ds := mkPlanDataset(r, l.rotate, l.nb)
+		ds.Raw = l.raw
+		scs = append(scs, &scenario{name: l.name, ds: ds, qs: genPlanQueries(r, ds, cfg.Thorough())})
+	}
+	joinDrive(cfg, sum, rng.Fork())
 	// each scenario's queries are split over several workers (fresh store each; same data)
 	type job struct {
 		sc     *scenario
@@ -1770,7 +2429,7 @@ func main() {
 			defer wg.Done()
 			sem <- struct{}{}
 			defer func() { <-sem }()
-			s := &Script{Rotate: j.sc.ds.Rotate}
+			s := &Script{Rotate: j.sc.ds.Rotate, Raw: j.sc.ds.Raw}
 			for _, blk := range j.sc.ds.Blocks {
 				var docs []string
 				for _, k := range blk {
@@ -1779,7 +2438,7 @@ func main() {
 				s.Batches = append(s.Batches, docs)
 			}
 			for _, q := range j.sc.qs[j.lo:j.hi] {
-				s.Queries = append(s.Queries, Query{Text: q.Text, Start: q.Start, End: q.End})
+				s.Queries = append(s.Queries, Query{Text: q.Text, Start: q.Start, End: q.End, Plan: q.PlanObs})
 			}
 			obs, err := runScenario(filepath.Join(cfg.Out, fmt.Sprintf("w%03d", ji)), s)
 			mu.Lock()
